@@ -241,11 +241,8 @@ func run(in Input) lib.Result {
 	case "boundary":
 		// aim at an interval boundary (boundaries are multiples of the interval counted from year 1) +- offset
 		target := startHi.Add(total).Truncate(interval).Add(interval).Add(time.Duration(in.StopOffsetUs) * time.Microsecond)
-		for time.Until(target) > 300*time.Microsecond {
-			time.Sleep(time.Until(target) - 200*time.Microsecond)
-		}
-		for time.Now().Before(target) {
-		}
+		// no busy-waiting: a spinning goroutine delays the runtime's timers and would make the overdue tick coincide with Stop
+		time.Sleep(time.Until(target))
 		h.stop()
 	case "gate":
 		deadline := time.Now().Add(total + 6*interval)
@@ -337,6 +334,14 @@ func run(in Input) lib.Result {
 			maxGap = g
 		}
 	}
+	// debugging aid for the evidence: the last log entries with their time relative to the Stop request (microseconds)
+	tail := []string{}
+	names := []string{"Due", "Snap", "SB", "SA", "Job", "StopReq", "StopRet", "SpyStop"}
+	for i, e := range log {
+		if i >= len(log)-14 && !stopLo.IsZero() {
+			tail = append(tail, fmt.Sprintf("%s@%d", names[e.kind], e.t.Sub(stopLo).Microseconds()))
+		}
+	}
 	jobTerms := make([]string, len(jobs))
 	afterStopJobs := 0
 	seenStopJob := false
@@ -376,7 +381,7 @@ func run(in Input) lib.Result {
 			"stop_within_one_tick_of_boundary": nearBoundary, "samples_after_stop_request": postStop > 0, "jobs_after_stop_job": afterStopJobs,
 			"jobs": len(jobs), "gap": gapClass, "procs": in.Procs, "goroutine_ended": ended},
 		Obs: map[string]interface{}{"samples": nSamples, "jobs": len(jobs), "post_stop_samples": postStop, "jobs_after_stop_job": afterStopJobs,
-			"max_gap_us": int64(maxGap / time.Microsecond), "stop_phase_us": int64(phase / time.Microsecond)},
+			"max_gap_us": int64(maxGap / time.Microsecond), "stop_phase_us": int64(phase / time.Microsecond), "log_tail_us": tail},
 	}
 }
 
